@@ -296,7 +296,8 @@ def serialise_for_hashseed(case):
     sut.reset(provider)
     root = build(case)
     if case.get("add_missing") and isinstance(root, Calendar):
-        root.add_missing_timezones(first_date=date(2020, 1, 1), last_date=date(2021, 1, 1))
+        # a window of several years: the generated VTIMEZONEs then carry RDATE lists with several values
+        root.add_missing_timezones(first_date=date(2012, 1, 1), last_date=date(2021, 1, 1))
     return {"sorted": hashlib.sha256(root.to_ical()).hexdigest(), "unsorted": hashlib.sha256(root.to_ical(sorted=False)).hexdigest(),
             "head": root.to_ical()[:0].decode(), "order": [c.name + ":" + str(c.get("TZID", "")) for c in root.subcomponents][-6:]}
 
@@ -332,7 +333,7 @@ def _hashseed_stream(ctx):
     import hypothesis
     from hypothesis import HealthCheck, Phase, given, settings
     col = ctx["collector"]
-    n = 40 if ctx["tier"] == "quick" else 400
+    n = 24 if ctx["tier"] == "quick" else 300
     batch = []
 
     @hypothesis.seed(ctx["seed"])
